@@ -23,7 +23,6 @@ import (
 	"os"
 	"strconv"
 	"testing"
-	"testing/synctest"
 	"time"
 
 	"github.com/tsuna/gohbase/internal/verifsim"
@@ -103,7 +102,7 @@ func TestVerifC02(t *testing.T) {
 		}
 		for _, pl := range plans {
 			name := fmt.Sprintf("A/layout%d/%s", li, pl.name)
-			synctest.Test(t, func(t *testing.T) {
+			verifsim.Bubble(t, func(t *testing.T) {
 				env := newRCEnv(rcOpts{queueSize: len(rows), flushInterval: time.Millisecond})
 				var cs []*rcCall
 				for i, r := range rows {
@@ -135,7 +134,7 @@ func TestVerifC02(t *testing.T) {
 	oldP := runtime.GOMAXPROCS(1)
 	for k := 0; k < 12; k++ {
 		name := fmt.Sprintf("P/%d/connection-closed-while-the-batcher-serialises-its-multi", k)
-		synctest.Test(t, func(t *testing.T) {
+		verifsim.Bubble(t, func(t *testing.T) {
 			env := newRCEnv(rcOpts{queueSize: 2, flushInterval: time.Millisecond})
 			c1 := env.newCall(fmt.Sprintf("p%02d", k), "get", true)
 			serialising, goOn := make(chan struct{}), make(chan struct{})
@@ -193,7 +192,7 @@ func TestVerifC02(t *testing.T) {
 		q := 1 + rng.Intn(6)
 		g := 2 + rng.Intn(47)
 		name := fmt.Sprintf("B/%d/q=%d/g=%d", k, q, g)
-		synctest.Test(t, func(t *testing.T) {
+		verifsim.Bubble(t, func(t *testing.T) {
 			env := newRCEnv(rcOpts{queueSize: q, flushInterval: []time.Duration{0, 500 * time.Microsecond}[rng.Intn(2)]})
 			for i := 0; i < g; i++ {
 				row := fmt.Sprintf("%c%03d", "agnt"[rng.Intn(4)], i)
